@@ -39,6 +39,72 @@ Theorem rejected_chunk_has_no_effect :
 Proof. exact rejected_chunk_has_no_effect_gen. Qed.
 Print Assumptions rejected_chunk_has_no_effect.
 
+(* A complete stream of one sender ([same_stream], ids 0..n-1, only the last chunk is a
+   last chunk) delivered in order to a receiver that holds nothing of that snapshot, whose
+   main-file chunks the validator accepts: every chunk is accepted, the final directory
+   holds exactly what the chunks write ([replay]: per file name the concatenation of the
+   chunk data, in order), one InstallSnapshot message built from the first chunk and the
+   file infos is delivered, nothing stays tracked and no temp dir is left. *)
+Theorem in_order_delivery_reassembles :
+  forall D dapp V vinit vadd vfinal my_did max_slots (st : state D V) m0 d0 (r : list (chunk D)),
+    clean D V max_slots st m0 ->
+    same_stream D my_did m0 ((m0, d0) :: r) -> ids_from D 0 ((m0, d0) :: r) -> last_only D ((m0, d0) :: r) ->
+    forall v' files',
+      vfold D V vadd vinit ((m0, d0) :: r) = Some v' -> vfinal v' = true ->
+      replay D dapp [] ((m0, d0) :: r) = Some files' ->
+      exists st', adds D dapp V vinit vadd vfinal drop_stream_on_invalid_chunk first_chunk_validated_before_discard
+                       my_did max_slots st ((m0, d0) :: r) = Some st' /\
+                  done_with D V st' m0 (fileinfos D [] ((m0, d0) :: r)) files' (s_out st).
+Proof. exact in_order_delivery_gen. Qed.
+Print Assumptions in_order_delivery_reassembles.
+
+(* PARTIAL (finalize_iff_complete_valid_sequence). Proved: in every step of every run the
+   set of final directories and the list of delivered messages change only when a chunk is
+   accepted that is the last chunk of its stream, the snapshot was not finalised before,
+   and then exactly one final directory and one message (its flag file) are added. With
+   only_next_chunk_from_same_sender_accepted (each accepted chunk is chunk 0 or the next
+   expected one of the same sender) and in_order_delivery_reassembles (the converse
+   direction, including "files = what the accepted chunks wrote") this gives the property.
+   Missing: the single run-level statement with the ghost list of the chunks accepted since
+   the stream's last chunk 0 (needs the tracked-stream/temp-dir invariant over arbitrary
+   interleavings; only proved along an in-order stream, lemma mid_rest). *)
+Theorem finalize_iff_complete_valid_sequence_partial :
+  forall D dapp V vinit vadd vfinal my_did gc_tick timeout max_slots (st : state D V) o st' b,
+    step D dapp V vinit vadd vfinal drop_stream_on_invalid_chunk first_chunk_validated_before_discard
+         my_did gc_tick timeout max_slots st o = Done st' b ->
+    (s_finals st' = s_finals st /\ s_out st' = s_out st) \/
+    (exists c, o = OAdd c /\ b = true /\ is_last (fst c) = true /\
+     alookup key_eqb (key_of (fst c)) (s_finals st) = None /\
+     exists fd n, s_finals st' = aset key_eqb (key_of (fst c)) fd (s_finals st) /\
+                  s_out st' = n :: s_out st /\ fd_flag fd = n).
+Proof. exact finalize_step_gen. Qed.
+Print Assumptions finalize_iff_complete_valid_sequence_partial.
+
+(* over every run from the initial state: the delivered InstallSnapshot messages are, in
+   order, exactly the flag files of the final directories; one final directory per snapshot *)
+Theorem one_notification_per_finalized_snapshot :
+  forall D dapp V vinit vadd vfinal my_did gc_tick timeout max_slots ops (st' : state D V),
+    run D dapp V vinit vadd vfinal drop_stream_on_invalid_chunk first_chunk_validated_before_discard
+        my_did gc_tick timeout max_slots init ops = Some st' ->
+    map (fun kf => fd_flag (snd kf)) (s_finals st') = rev (s_out st') /\
+    NoDup (map fst (s_finals st')).
+Proof. exact one_notification_per_final_gen. Qed.
+Print Assumptions one_notification_per_finalized_snapshot.
+
+(* F5, the code before the repair (both flags false): a validator-refused chunk does not
+   stop the stream, the next chunk is accepted and a snapshot made of chunks 0 and 2 is
+   finalised and announced; the repaired receiver finalises nothing on the same input.
+   Witness replayed on the implementation: corpus/C15/f5.txt *)
+Theorem chunk_finalize_refuted :
+  exists (ops : list (op bytes)) (st : state bytes N),
+    run bytes (@app N) N 0 toy_vadd (fun _ => true) false false 7 30 900 128 init ops = Some st /\
+    map (fun kf => fd_files (snd kf)) (s_finals st) = [[([115], [10; 30])]] /\
+    length (s_out st) = 1%nat /\
+    exists st', run bytes (@app N) N 0 toy_vadd (fun _ => true) true true 7 30 900 128 init ops = Some st' /\
+                s_finals st' = [] /\ s_out st' = [] /\ s_tracked st' = [] /\ s_temps st' = [].
+Proof. exact chunk_finalize_refuted_proved. Qed.
+Print Assumptions chunk_finalize_refuted.
+
 (* path.Base of any Filepath is ".", ".." or "/" (a directory: create fails, save
    errors) or a plain child name without a separator *)
 Theorem filename_confined_base :
@@ -50,3 +116,18 @@ Example base_examples :
   map path_base [[]; [47]; [97; 47; 46; 46]; [46; 46; 47; 46; 46; 47; 101; 116; 99]; [120; 47]]
   = [[46]; [47]; [46; 46]; [101; 116; 99]; [120]].
 Proof. vm_compute. reflexivity. Qed.
+
+(* non-vacuity of in_order_delivery_reassembles: a main file in two chunks and an external
+   file in one, delivered in order to the initial state, are finalised as the two files *)
+Definition ex_meta (id fcid : N) (path : bytes) (fi : bool) : cmeta :=
+  mkCMeta 1 1 5 id 1 3 100 3 path 3 7 fcid 2 fi (mkSFile path 2 9 []) transport_bin_version 0 false.
+Definition ex_stream : list (chunk bytes) :=
+  [(ex_meta 0 0 [47; 115] false, [1; 2]); (ex_meta 1 1 [47; 115] false, [3]); (ex_meta 2 0 [47; 120] true, [7; 8])].
+Example in_order_witness :
+  option_map (fun st => (map (fun kf => fd_files (snd kf)) (s_finals st), length (s_out st), s_tracked st, s_temps st))
+    (adds bytes (@app N) N 0 toy_vadd (fun _ => true) drop_stream_on_invalid_chunk
+          first_chunk_validated_before_discard 7 128 init ex_stream)
+  = Some ([[([115], [1; 2; 3]); ([120], [7; 8])]], 1%nat, [], []) /\
+  replay bytes (@app N) [] ex_stream = Some [([115], [1; 2; 3]); ([120], [7; 8])] /\
+  vfold bytes N toy_vadd 0 ex_stream = Some 2.
+Proof. vm_compute. repeat split; reflexivity. Qed.
